@@ -170,3 +170,48 @@ def wrapped(structs, reps=2, cancel=True, delayed=False):
             f2 = ([reps] if delayed else []) + list(free) * reps
         yield ('%s|x%d%s%s' % (name, reps, 'c' if cancel else '', 'd' if delayed else ''), head + body,
                [list(q) * reps for q in queues], f2)
+
+
+# ------------------------------------------------------------------------------------------
+# nested delayed replications whose counts differ between subsets while the expanded descriptor lists may coincide
+def _block_vectors(maxo, maxi):
+    out = []
+    for o in range(maxo + 1):
+        for inner in itertools.product(range(maxi + 1), repeat=o):
+            out.append((o,) + inner)
+    return out
+
+
+def nested_delayed(blocks=2, maxo=2, maxi=1, nvariants=2, colliding_only=False, elem=None):
+    """`blocks` consecutive constructs  1 03 000 031001 [1 01 000 031001 E]  (a delayed replication of a delayed
+    replication of one element).  A subset is a count vector (outer count, then one inner count per outer repetition, per
+    block).  Different vectors can expand to the same descriptor sequence (031001 031001 E 031001 031001 for (2,1,0 | 0)
+    and (1,1 | 1,0)), so the flat descriptor list does not determine the structure.
+    yields (name, descs, queues, free) with free = one count list per subset variant."""
+    e = elem or N7
+    descs = []
+    for _ in range(blocks):
+        descs += [103000, Z8, 101000, Z8, e]
+    descs += [NS]
+    bv = _block_vectors(maxo, maxi)
+    vecs = [sum(t, ()) for t in itertools.product(bv, repeat=blocks)]
+
+    def ids(v):
+        out, k = [], 0
+        for _ in range(blocks):
+            o = v[k]
+            k += 1
+            out.append('f')
+            for _r in range(o):
+                out.append('f')
+                out.extend('e' * v[k])
+                k += 1
+        return ''.join(out)
+    for combo in itertools.product(vecs, repeat=nvariants):
+        if len(set(combo)) < 2 and nvariants > 1:
+            continue
+        same = len({ids(v) for v in combo}) == 1
+        if colliding_only and not same:
+            continue
+        name = 'nd%d|%s.%s' % (blocks, 'same-ids' if same else 'other-ids', '/'.join(''.join(map(str, v)) for v in combo))
+        yield name, descs, [[] for _ in combo], [list(v) for v in combo]
